@@ -49,7 +49,9 @@ def r1(ctx):
             ok = b.must_pass(s.bb, fact_is(r'.', [var]))
             table[fn] = ok
             ctx.check('run|%s|dispatched-for-%s' % (fn, var), ok, '%s is not dispatched from the %s message' % (fn, var), s.where())
-            ctx.check('run|%s|id-from-message' % fn, N(b.call_args(s)[1]) == 'clock_id', 'id argument %s' % N(b.call_args(s)[1]), s.where(), sample=N(b.call_args(s)[1]))
+            got = S(b.call_args(s)[1])
+            ctx.check('run|%s|id-from-message' % fn, re.search(r'poll_fn::poll_fn\(.* as Ready\)\.0 as _0\)\.0 as Some\)\.0\.0$', got, re.S) is not None,
+                      'the id handed to %s is not the id that arrived with the message: %s' % (fn, got[-100:]), s.where(), sample=got[-60:])
     ctx.check('run|dispatch-table', len(table) == 3, 'dispatch sites %s' % table, sample=table)
 
 
